@@ -46,6 +46,7 @@ func (o *Oblig) Query() string {
 type Options struct {
 	Sweep       bool   // safety sweep: nopanic obligations, default contracts for callees
 	AutoInv     bool   // infer loop invariants (Houdini candidates) also outside the sweep
+	GoInline    bool   // execute parameterless go func(){...}() closures inline (set by "mode goinline" contracts)
 	Property    string // property id prefix for obligation ids
 	NoPanic     bool   // generate nopanic obligations
 	Variants    bool   // generate loop variant obligations
